@@ -321,3 +321,6 @@ def run(rep, facts, tier):
         rep.add('C12.R4', 'C12.R4:lossy-cast:%s:%s->%s' % (fn, frm, to), exact, why if exact else
                 why + ' - an index beyond the machine word selects some other element (`[ 1 2 3 ] 18446744073709551616 nth` would be `0 nth`)', fn, at)
     rep.add('C12.R4', 'C12.R4:lossy-casts-counted', True, '%d narrowing casts of user integers in cell.rs / state.rs examined' % n_c, None, None, nontrivial=False)
+
+# as-built addendum
+EXPLANATION += ' As built (DESIGN 9.2): R1 also: each type is ordered by its own PartialOrd/Ord. R3 also: foreach consumes an empty collection like a non-empty one. R4 also: non-wrapping index conversion, slice clamps any integer, string words share one unit (characters).'
